@@ -6,3 +6,5 @@ if python3 $V/gen/sync_rewrite.py $GEN core/headerchain_validation.go; then
 else
   echo "note: scheduler build skipped (source pattern changed); part trim-schedules will be reported incomplete"
 fi
+# part "trim-race": the plain harness built with the race detector (free-running pass)
+build_bin vqr vq - -race
